@@ -300,6 +300,19 @@ def outcome_sites(body):
     Returns list of dicts {bb, kind, ...}: kind in Ok/Err/Some/None/Continue/Break/
     residual (the `?` error edge) / call (forwarded result of a call) / use / other."""
     out = []
+    # return-value temporaries (`let __ret = ..; return __ret` of async_trait, `let res = ..; res`):
+    # locals that are moved whole into _0
+    rets = {0}
+    changed = True
+    while changed:
+        changed = False
+        for bb, s in body.stmts():
+            if s["k"] == "assign" and s["rv"]["k"] == "use":
+                l, p = norm_place(s["place"])
+                pl = op_place(s["rv"]["op"])
+                if l in rets and p == () and pl and pl[1] == () and pl[0] not in rets and pl[0] > body.arg_count:
+                    rets.add(pl[0])
+                    changed = True
     for bb, blk in enumerate(body.blocks):
         if blk["cleanup"]:
             continue
@@ -307,9 +320,11 @@ def outcome_sites(body):
             if s["k"] != "assign":
                 continue
             l, p = norm_place(s["place"])
-            if l != 0:
+            if l not in rets:
                 continue
             rv = s["rv"]
+            if rv["k"] == "use" and op_place(rv["op"]) and op_place(rv["op"])[0] in rets and op_place(rv["op"])[1] == ():
+                continue  # the copy of the return temporary itself
             site = {"bb": bb, "idx": i, "path": p, "line": s["line"], "rv": rv}
             if rv["k"] == "agg" and rv.get("ak") == "adt":
                 site["kind"] = rv["variant"]
@@ -324,7 +339,7 @@ def outcome_sites(body):
         t = blk["term"]
         if t and t["k"] == "call":
             l, p = norm_place(t["dest"])
-            if l == 0:
+            if l in rets:
                 kind = "residual" if t.get("callee") == FROM_RESIDUAL else "call"
                 out.append({"bb": bb, "idx": None, "path": p, "line": t["line"], "kind": kind, "term": t})
     return out
@@ -786,7 +801,8 @@ class ReachingDefs:
                     if (rv["k"] == "ref" and rv.get("mut")) or rv["k"] == "rawptr":
                         l2, p2 = norm_place(rv["place"])
                         if not any(e["k"] == "deref" for e in rv["place"]["p"]):
-                            self._add((bb, "m%d" % i), l2, p2, "mutref", s, False)
+                            # `&mut L` handed to a callee: the place holds an updated value afterwards
+                            self._add((bb, "m%d" % i), l2, p2, "mutref", (s, i), True)
             t = blk["term"]
             if t is None:
                 continue
@@ -1028,7 +1044,7 @@ class Terms:
                 return self._project(("upvar", int(path[0])), path[1:])
             return self._project(("param", l), path)
         if kind == "mutref":
-            return ("mutated", l, site)
+            return self._project(self._mutation(site, l, dpath, payload, depth), path[len(dpath):]) if _is_prefix(dpath, path) else ("mutated", l, site)
         if not _is_prefix(dpath, path):
             # def of a sub-part of the queried place
             return ("partial", l, site)
@@ -1041,6 +1057,27 @@ class Terms:
         if kind == "call":
             return self._project(self._call(payload, bb, depth), rest)
         return ("opaque", str(site))
+
+    def _mutation(self, site, local, dpath, payload, depth):
+        """value of a place after `&mut place` was passed to a call: ("upd", callee, previous value, other args)"""
+        stmt, i = payload
+        bb = site[0]
+        r = stmt["place"]["l"]
+        aliases = {r}
+        blk = self.body.blocks[bb]
+        for s2 in blk["stmts"][i + 1:]:
+            if s2["k"] == "assign" and s2["rv"]["k"] in ("ref", "use", "rawptr", "cast"):
+                src = s2["rv"].get("place") or (s2["rv"].get("op") or {}).get("place")
+                if src and src["l"] in aliases:
+                    aliases.add(s2["place"]["l"])
+        t = blk["term"]
+        prev = self.place(local, dpath, bb, i, depth + 1)
+        if t and t["k"] == "call":
+            idxs = [j for j, a in enumerate(t["args"]) if a["k"] in ("copy", "move") and a["place"]["l"] in aliases]
+            if idxs:
+                others = tuple(self.operand(a, bb, "t", depth + 1) for j, a in enumerate(t["args"]) if j not in idxs)
+                return ("upd", self.call_name(t), prev, others)
+        return ("mutated", local, site)
 
     def _rvalue(self, rv, bb, idx, depth):
         k = rv["k"]
@@ -1150,6 +1187,8 @@ def simplify_term(t):
         return t[:-1] + (simplify_term(t[-1]),)
     if t[0] == "with":
         return ("with", simplify_term(t[1]), frozenset((pth, simplify_term(v)) for pth, v in t[2]))
+    if t[0] == "upd":
+        return ("upd", t[1], simplify_term(t[2]), tuple(simplify_term(a) for a in t[3]))
     return t
 
 
@@ -1178,6 +1217,8 @@ def term_str(t, depth=0):
         return "%s(%s, %s)" % (t[1], term_str(t[2], d), term_str(t[3], d))
     if k == "phi":
         return "phi{%s}" % " | ".join(sorted(term_str(x, d) for x in t[1]))
+    if k == "upd":
+        return "%s.%s(%s)" % (term_str(t[2], d), t[1].rsplit("::", 1)[-1], ", ".join(term_str(a, d) for a in t[3]))
     if k == "with":
         return "%s with {%s}" % (term_str(t[1], d), ", ".join(sorted("%s: %s" % (".".join(str(e) for e in pth), term_str(v, d)) for pth, v in t[2])))
     if k in ("unop", "cast", "discr", "try"):
